@@ -1,5 +1,6 @@
 import CfrVerif.Proofs.CliLemmas
 import CfrVerif.Props.C06
+import CfrVerif.Proofs.CliTwin
 /-!
 # C16 — the options and input formats of the command-line program mean what the help text says
 
@@ -9,9 +10,12 @@ import CfrVerif.Props.C06
 * the input route (stdin / file, explicit / auto-detected format, file extension) only selects
   the parser: every route that reads a given valid file with the right parser loads the same game;
 * the clip step prints the pruned profile exactly when its regret is strictly lower.
+* a JSON and a Gambit encoding of the same game (`Twin`: one tree is the other renamed, with
+  rescaled chance weights and payoffs shifted by the constant-sum offset) give the same strategies
+  up to the renaming, the same regrets, the same player-one utility; player two's printed utility
+  differs by the constant `2·sum` the JSON format cannot express (`cli_json_gambit_twins`).
 (The output destination is not in the model: the same `Output` record is serialised to stdout or
-to the file.  That a JSON and a Gambit encoding of one game give the same solution is covered by
-the correspondence run with twin files.)
+to the file.)
 -/
 set_option linter.unusedSectionVars false
 namespace Cfr
@@ -124,5 +128,18 @@ example (sched sched' : Sched ℝ) (hs : sched.Fair) (hs' : sched'.Fair) (draw :
 example : ∃ p : Parsed ℝ, ∃ s, p.json = some s := ⟨⟨some (.terminal 0), none⟩, _, rfl⟩
 example : ∃ p : Parsed ℝ, ∃ f, p.json = none ∧ p.gambit = some f :=
   ⟨⟨none, some ⟨2, .term 2 [1, 1]⟩⟩, _, rfl, rfl⟩
+
+/-- **a JSON and a Gambit encoding of the same game give the same solution** -/
+theorem cli_json_gambit_twins (ρ : Renaming) (sum : ℝ) (rj rg : Raw ℝ) (ht : Twin ρ sum rj rg)
+    (hs : Raw.Shape rj) (gj : Game ℝ) (hj : fromRoot rj = .ok gj) (p : RegretParams ℝ)
+    (draw : DrawFn ℝ) (T : Nat) (thr : Option (Ext ℝ)) :
+    ∃ gg, fromRoot rg = .ok gg ∧
+      gg.p1 = gj.p1.map (PInfo.rename ρ true) ∧ gg.p2 = gj.p2.map (PInfo.rename ρ false) ∧
+      solveVanillaSingle gg false p draw T thr = solveVanillaSingle gj false p draw T thr ∧
+      ∀ σ : Profile ℝ, ProfileOK gj σ →
+        (getInfo gg σ).util + sum = (getInfo gj σ).util ∧
+        (getInfo gg σ).regretOne = (getInfo gj σ).regretOne ∧
+        (getInfo gg σ).regretTwo = (getInfo gj σ).regretTwo :=
+  json_gambit_same_solution ρ sum rj rg ht hs gj hj p draw T thr
 
 end Cfr
